@@ -1333,6 +1333,17 @@ def check_C18(ck):
         v2.append((0, rng.randrange(Q)))       # purely imaginary
         t = rng.randrange(1, Q)
         v2.append(((-t * t) % Q, 0))           # alpha = -1 branch candidates: a in Fq with a = -t^2
+    # negate_if on zero and non-zero elements, both signs (the result must be the canonical representation: a non-canonical
+    # zero is printed as NONCANONICAL-RAW by the executor); Sgn0Result xor table
+    for a in [0, 1, Q - 1, 2, rng.randrange(Q)]:
+        for sg in (0, 1):
+            cases.append(("fq/negate_if", "fq negif %x %d" % (a, sg))); kinds.append(("fq", Q, ((-a) % Q) if sg else a, "exact"))
+    for a in [(0, 0), (1, 0), (0, 1), (0, Q - 1), F2.rand(rng)]:
+        for sg in (0, 1):
+            cases.append(("fq2/negate_if", "fq2 negif %s %d" % (_f2s(a), sg))); kinds.append(("fq2", Q, _f2s(F2.neg(a) if sg else a), "exact-s"))
+    for sa in (0, 1):
+        for sb in (0, 1):
+            cases.append(("sgn0/xor", "fq sgnxor %d %d" % (sa, sb))); kinds.append(("fq", Q, "Negative" if sa != sb else "NonNegative", "exact-s"))
     for (cl, a) in fq2_alpha_specials(rng):
         cases.append(("fq2/sqrt/" + cl, "fq2 sqrt %s" % _f2s(a))); kinds.append(("fq2", Q, a, "sqrt"))
         cases.append(("fq2/legendre/" + cl, "fq2 legendre %s" % _f2s(a))); kinds.append(("fq2", Q, a, "leg"))
@@ -1343,6 +1354,12 @@ def check_C18(ck):
         cases.append(("fq2/lt-neg", "fq2 lt %s %s" % (_f2s(a), _f2s(F2.neg(a))))); kinds.append(("fq2", Q, a, "ltneg"))
     res = ck.run(cases)
     for c, (impl, _), (f, p, a, k) in zip(cases, res, kinds):
+        if k == "exact":
+            ck.expect(impl == "%x" % a, "negate_if:" + f, c[1], impl, "%x" % a, "negate_if = negate when the sign is Negative, identity otherwise (canonical result)")
+            continue
+        if k == "exact-s":
+            ck.expect(impl == a, "negate_if/xor:" + f, c[1], impl, a, "negate_if / Sgn0Result xor")
+            continue
         if f != "fq2":
             issq = a == 0 or pow(a, (p - 1) // 2, p) == 1
             if k == "sqrt":
@@ -2024,6 +2041,10 @@ def check_C20(ck):
                  "g2 pip 5 %s;%s %x;%x" % (g2.A(Qp), g2.A(g2.gen), (1 << 254) | (1 << 253) | 7, 1 << 255),
                  "g2 pip 5 %s;%s %x;%x" % (g2.A(g2.gen), g2.A(Qp), (1 << 254) | 3, k >> 3),
                  "g2 pip 2 %s %x" % (g2.A(Qp), (3 << 253) | 3),
+                 # output lengths that are not a multiple of the digest size (a partially written / uninitialised tail would
+                 # depend on what the allocator left there), also through hash_to_field for Fr (48 bytes per element)
+                 "expand xmd256 %s 51 11" % bytes(rng.randrange(256) for _ in range(5)).hex(), "expand xmd256 0102 51 30", "expand xmd512 0102 51 21", "expand xmd512 %s 51 61" % bytes(rng.randrange(256) for _ in range(40)).hex(),
+                 "expand xof128 0102 51 11", "h2f fr xmd256 0102 51 1", "h2f fr xmd512 0102 51 3", "h2f fr xmd256 %s 51 1" % bytes(rng.randrange(256) for _ in range(7)).hex(),
                  "g1 enc_c %s" % g1.A(P), "fq12 frob %s 7" % O.show_f12(O.f12_unflat([rng.randrange(Q) for _ in range(12)]))]
     base = ck.run([("sequential", w) for w in work])
     ref = [a for (a, _) in base]
